@@ -91,7 +91,12 @@ Theorem C01_contains : forall (A : Type) (eqb : A -> A -> bool) (cmp : A -> A ->
 Proof. exact @contains_spec. Qed.
 Print Assumptions C01_contains.
 
-(* ---- the three walks list the same multiset (they are computed from one tree value) ---- *)
+(* ---- the three walks list the same multiset ----
+   NOTE on "three traversals of one and the same binary tree": in this value model that clause is
+   DEFINITIONAL - preorder / inorder / postorder are three functions applied to one tree value, so there is
+   nothing to prove beyond the permutation below. On the real code (three separate recursive methods over a
+   pointer structure) the clause is carried by the Go oracle [oneTree] of harness/c01, which searches for a
+   binary tree having the three observed walks (duplicates included). *)
 Theorem C01_three_walks : forall (A : Type) (t : tree (A:=A)),
   Permutation (preorder t) (inorder t) /\ Permutation (postorder t) (inorder t).
 Proof. exact (fun A t => conj (preorder_perm t) (postorder_perm t)). Qed.
@@ -195,7 +200,15 @@ Proof. exact @clone_independent. Qed.
 Print Assumptions C01_clone_independent.
 
 (* ---- handles never influence each other (any state, any comparator): what handle h shows during
-        a history and the tree it ends with are determined by the ops addressed to h alone ---- *)
+        a history and the tree it ends with are determined by the ops addressed to h alone ----
+   NOTE on "shares no state": C01_handles_independent, C01_frame and the projection half of
+   C01_clone_independent are facts of the VALUE MODEL (a handle is a position in a list of immutable tree
+   values; they hold for any comparator and any state). Physical sharing of *node pointers between a clone
+   and its original cannot be expressed in this model, so these theorems say nothing about it: on the real
+   code that clause is carried by the harness only (reflection probe [disjointTrees]: the node sets of all
+   handles are pairwise disjoint and each is a tree; plus re-reading every other handle after every
+   mutating op). What the theorems do give: the transcribed functions, as functions of one tree value, have
+   no hidden dependence on other handles. *)
 Theorem C01_handles_independent : forall (A : Type) (eqb : A -> A -> bool) (cmp : A -> A -> Z)
   (ts1 ts2 : list Tree) (ops : list op) (h : nat),
   (h < length ts1)%nat -> nth_error ts1 h = nth_error ts2 h ->
